@@ -254,6 +254,10 @@ func PresentationDefinition(p Provider, opts ...OptPD) presentproof.Middleware {
 				return fmt.Errorf("unmarshal definition: %w", err)
 			}
 
+			if payload == nil || payload.PresentationDefinition == nil {
+				return errors.New("the request attachment has no presentation_definition")
+			}
+
 			credentials, err := parseCredentials(vdr, attachments, documentLoader)
 			if err != nil {
 				return fmt.Errorf("parse credentials: %w", err)
